@@ -154,7 +154,8 @@ func checkOwned(born ssa.Instruction, v ssa.Value, errV ssa.Value, r *ownRules) 
 	visit := func(i ssa.Instruction) pathAction {
 		switch x := i.(type) {
 		case *ssa.Return:
-			for _, res := range x.Results {
+			for k := range x.Results {
+				res := returnedValue(x, k)
 				if al[res] || al[strip(res)] {
 					how["return"]++
 					return pathStop
@@ -333,4 +334,18 @@ func resultsOfType(i ssa.Instruction, pred func(types.Type) bool) [][2]ssa.Value
 		out = append(out, [2]ssa.Value{cv, nil})
 	}
 	return out
+}
+
+// returnedValue: result #k of r, read through the defer-spill slot idiom ("*slot = v; rundefers; t = *slot; return t")
+// so that which value is returned is decided per return site, not flow-insensitively.
+func returnedValue(r *ssa.Return, k int) ssa.Value {
+	res := r.Results[k]
+	if ld, ok := res.(*ssa.UnOp); ok && ld.Op == token.MUL {
+		if _, isA := ld.X.(*ssa.Alloc); isA {
+			if s := reachingStoreInBlock(ld); s != nil {
+				return s
+			}
+		}
+	}
+	return res
 }
